@@ -24,6 +24,30 @@ def probe(cache_home):
     return {'ok': False, 'error': 'no probe output (rc=%s)' % r.returncode, 'trace': []}
 
 
+def converters_from_data_files():
+    """independent reading of the shipped converter files (one line per class: `CLASS : sound, sound, ...`, utf-8, NFC): the
+    reference 'build from the shipped data files' that does not go through the library's own reader"""
+    import hashlib
+    import unicodedata
+    base = os.path.join(common.REPO, 'src', 'lingpy', 'data', 'models')
+    out = {}
+    for model in sorted(os.listdir(base)):
+        p = os.path.join(base, model, 'converter')
+        if not os.path.isfile(p):
+            continue
+        text = unicodedata.normalize('NFC', open(p, encoding='utf-8-sig').read())
+        conv = {}
+        for line in text.split('\n'):
+            line = line.rstrip('\r')
+            if ' : ' not in line:
+                continue
+            cls, sounds = line.split(' : ', 1)
+            for snd in sounds.split(', '):
+                conv[snd] = cls
+        out[model] = hashlib.sha256(repr(sorted(conv.items())).encode()).hexdigest()
+    return out
+
+
 def cache_files(home):
     return sorted(glob.glob(os.path.join(home, 'lingpy', '*', '*.pkl')))
 
@@ -80,6 +104,14 @@ def run(chk):
         chk.obligation('fresh build and clean restart agree', 'correspondence',
                        clean['digest'] == digest and all(t[0] == 'L' for t in clean['trace']),
                        'files=%d clean-restart ops=%r' % (len(files), clean['trace'][:3]))
+        # the fresh build against the shipped data files read independently (converter of every loaded model)
+        ref_conv = converters_from_data_files()
+        diff = sorted(m for m, dg in fresh.get('converters', {}).items() if m in ref_conv and ref_conv[m] != dg)
+        chk.obligation('oracle:converters of a fresh build == the shipped converter files read independently', 'correspondence', not diff,
+                       'models compared=%d differing=%r' % (len([m for m in fresh.get('converters', {}) if m in ref_conv]), diff))
+        if diff:
+            chk.violation('a start on an absent cache yields a converter for model %r that differs from its shipped data file' % diff[0],
+                          {'kind': 'cache', 'faults': [['<all>', 'nodir', 0]], 'models': diff, 'why': 'converter built from the data files differs from an independent reading of lingpy/data/models/<model>/converter'})
         # units of the model, derived from the observed clean start (load order) and the fresh build (writes)
         order = [t[1] for t in clean['trace']]
         writes = {}
